@@ -143,18 +143,20 @@ def main_check(prop_id, tier):
             proof_problems.append(f"translator:{name}:{st}:{tr.get(name, {}).get('detail')}")
 
     # 2. prove ------------------------------------------------------------------------------------
-    ok, out, secs = lean.build([f"OptiVerif.Props.{prop_id}", "driver"])
+    ok, out, secs = lean.build([f"OptiVerif.Props.{prop_id}"])
     log["build"] = {"ok": ok, "seconds": round(secs, 1)}
-    driver_ok = ok
     if not ok:
         log["build"]["output_tail"] = out[-4000:]
         proof_problems.append("lake-build-failed")
-        # the driver may still build although a proof broke
-        ok2, out2, _ = lean.build(["driver"])
-        driver_ok = ok2
-        if not ok2:
-            proof_problems.append("driver-build-failed")
-    hits = lean.scan_forbidden()
+    driver_ok, excluded, dout = lean.build_driver_isolating()
+    log["driver"] = {"ok": driver_ok, "excluded_models": excluded}
+    if not driver_ok:
+        proof_problems.append("driver-build-failed")
+        log["driver"]["output_tail"] = dout[-2000:]
+    own_models = set(getattr(mod, "MODELS", []))
+    if own_models & set(excluded):
+        proof_problems.append("own-model-does-not-compile:" + ",".join(sorted(own_models & set(excluded))))
+    hits = lean.scan_forbidden([f"OptiVerif.Props.{prop_id}"] + list(getattr(mod, "MODELS", [])))
     log["forbidden"] = hits
     if hits:
         proof_problems.append("forbidden-token:" + ";".join(f"{a}:{b}" for a, b, _ in hits[:5]))
@@ -272,6 +274,7 @@ def main_check(prop_id, tier):
         "proof_problems": proof_problems,
         "verdict": verdict,
         "build_seconds": (log["build"] or {}).get("seconds"),
+        "driver_excluded_models": (log.get("driver") or {}).get("excluded_models"),
         "exhaustive": bool(getattr(mod, "EXHAUSTIVE", {}).get(tier, False)),
         "search_cases": len(run.cases) - n_primary,
     }
